@@ -20,6 +20,39 @@ def file_with_event(event_bytes):
                   n >> 24 & 255, n >> 16 & 255, n >> 8 & 255, n & 255] + body)
 
 
+_ABUSED = [0]
+
+
+def _abuse_helpers(mido, case):
+    """The public helpers of mido.midifiles.meta and an UnknownMetaMessage, used the way programs use them before the case
+    runs: what they return belongs to the caller (it is extended, decoded in place, cleared), and none of that may change how
+    any message encodes afterwards."""
+    _ABUSED[0] += 1
+    if _ABUSED[0] % 97 != 1:
+        return
+    from mido.midifiles import meta
+    t, kw = case
+    lens = {0, 1, 3, 5, 127, 128, 129, 200, 300, 16383, 16384}
+    for v in kw.values():
+        if isinstance(v, (str, tuple, list, bytes)):
+            lens.add(len(v))
+            try:
+                lens.add(len(v.encode('latin1')) if isinstance(v, str) else len(v))
+            except Exception:
+                pass
+    for n in sorted(lens):
+        try:
+            enc = meta.encode_variable_int(n)
+            meta.decode_variable_int(enc)              # works on its argument in place
+            enc2 = meta.encode_variable_int(n)
+            enc2 += [1, 2, 3]
+            meta.encode_variable_int(n).clear()
+            if 0 < n <= 300:
+                mido.UnknownMetaMessage(0x0a, list(range(n % 128, n % 128 + 1)) * n).bytes()
+        except Exception:
+            pass
+
+
 def impl_case(case):
     """case = (type, kwargs). Returns lines (new, bytes, frombytes) and an oracle failure."""
     import mido
@@ -39,6 +72,7 @@ def impl_case(case):
                 attempt()
             except Exception:
                 pass
+    _abuse_helpers(mido, case)
     try:
         m = mido.MetaMessage(t, **kw)
     except Exception as e:
@@ -111,6 +145,21 @@ def impl_case(case):
     except Exception as e:
         line_fb = 'err ' + exc_name(e)
         fail = fail or f'from_bytes(bytes()) of {m!r} raised {type(e).__name__}: {e}'
+    if fail is None and len(bs) <= 70000:
+        # the encoded bytes as the other sequences a caller holds them in (what came out of a file or a socket is a bytes
+        # object, a stored event a tuple); decoding must not write into what it is handed
+        try:
+            for how, seq in (('bytes', bytes(bs)), ('tuple', tuple(bs)), ('bytearray', bytearray(bs)), ('list', list(bs))):
+                keep = bytes(seq)
+                mx = mido.MetaMessage.from_bytes(seq)
+                if not (mx == m.copy(time=0)):
+                    fail = f'from_bytes of the bytes() of {m!r} handed over as a {how} gives {mx!r}'
+                    break
+                if bytes(seq) != keep:
+                    fail = f'from_bytes changed the {how} it was handed ({list(keep)[:12]} -> {list(seq)[:12]})'
+                    break
+        except Exception as e:
+            fail = f'from_bytes of the bytes() of {m!r} handed over as a {how} raised {type(e).__name__}: {e}'
     if fail is None and len(bs) <= 1000005:
         try:
             mf = mido.MidiFile(file=io.BytesIO(file_with_event(bs)))
